@@ -77,6 +77,8 @@ impl<T: ArrayValue> Array<T> {
             let replaced = map_keys.insert(key, i, ctx)?;
             to_remove.extend(replaced);
         }
+        // Remove the highest rows first so that the remaining ones keep their positions
+        to_remove.sort_unstable();
         for i in to_remove.into_iter().rev() {
             values.remove_row(i);
             for index in &mut map_keys.indices {
@@ -142,6 +144,8 @@ impl<T: ArrayValue> Array<T> {
             let replaced = map_keys.insert(key, i, env.ctx())?;
             to_remove.extend(replaced);
         }
+        // Remove the highest rows first so that the remaining ones keep their positions
+        to_remove.sort_unstable();
         for i in to_remove.into_iter().rev() {
             values.remove_row(i);
             for index in &mut map_keys.indices {
